@@ -1,7 +1,8 @@
 import CpSpec.Wire
 /-
-  CpSpec.Mpint — the `mpint` wire form of RFC 4251 §5 for non-negative integers, written without
-  reference to the model's primitives:
+  CpSpec.Mpint — the `mpint` wire form of RFC 4251 §5, written without reference to the model's
+  primitives: first for non-negative integers (minimal digits and the `00` rule), then for every
+  integer (the shortest two's complement):
 
     "Represents multiple precision integers in two's complement format, stored as a string, 8 bits
      per byte, MSB first. [...] Unnecessary leading bytes with the value 0 or 255 MUST NOT be
@@ -31,5 +32,46 @@ def sshString (body : Cp.Bytes) : Cp.Bytes := toBytesBE 4 body.length ++ body
 
 /-- The complete RFC 4251 `mpint` encoding of a non-negative integer. -/
 def sshMpintNonneg (v : Nat) : Cp.Bytes := sshString (sshMpintBodyNonneg v)
+
+/-! ### every integer: the shortest two's complement
+
+RFC 4251 §5 examples: `0 ↦ 00 00 00 00`, `0x80 ↦ 00 00 00 02 00 80`, `-0x1234 ↦ 00 00 00 02 ed cc`,
+`-0xdeadbeef ↦ 00 00 00 05 ff 21 52 41 11`. -/
+
+/-- `v` can be written as an `L`-byte two's complement: `-2^(8L-1) ≤ v < 2^(8L-1)` (both sides
+doubled so that `L = 0`, which holds only `0`, needs no fraction). -/
+def FitsSigned (v : Int) (L : Nat) : Prop :=
+  -((256 ^ L : Nat) : Int) ≤ 2 * v ∧ 2 * v < ((256 ^ L : Nat) : Int)
+
+instance (v : Int) (L : Nat) : Decidable (FitsSigned v L) := by
+  unfold FitsSigned; exact inferInstance
+
+/-- the first `L ≥ start` with `FitsSigned v L`, trying at most `fuel` candidates -/
+def minSignedLenAux : Nat → Nat → Int → Nat
+  | 0, L, _ => L
+  | fuel + 1, L, v => if FitsSigned v L then L else minSignedLenAux fuel (L + 1) v
+
+/-- The least number of bytes whose two's complement range contains `v` (`0` for `v = 0`); the
+search is bounded by `2|v| + 1` candidates, which is always enough (`L < 256^L`). -/
+def minSignedLen (v : Int) : Nat := minSignedLenAux (2 * v.natAbs + 1) 0 v
+
+/-- The `L`-byte two's complement of `v`, MSB first: the digits of `v` itself, or of `2^(8L) + v` for
+a negative `v` (`int.to_bytes(L, 'big', signed=True)`). -/
+def twosComplementBE (L : Nat) (v : Int) : Cp.Bytes :=
+  toBytesBE L (if v < 0 then (((256 ^ L : Nat) : Int) + v).toNat else v.toNat)
+
+/-- The data bytes of the `mpint` of any integer: its two's complement in the least number of bytes
+("unnecessary leading bytes with the value 0 or 255 MUST NOT be included", zero has no data). -/
+def sshMpintBody (v : Int) : Cp.Bytes := twosComplementBE (minSignedLen v) v
+
+/-- The complete RFC 4251 `mpint` encoding of an integer. -/
+def sshMpint (v : Int) : Cp.Bytes := sshString (sshMpintBody v)
+
+/-- The integer that `mpint` data bytes denote: big-endian two's complement, the sign is the top bit
+of the first byte (no data is zero). -/
+def fromBytesSigned (b : Cp.Bytes) : Int :=
+  match b with
+  | [] => 0
+  | x :: _ => if 128 ≤ x.toNat then (fromBytesBE b : Int) - ((256 ^ b.length : Nat) : Int) else (fromBytesBE b : Int)
 
 end Cp.Spec
